@@ -155,17 +155,30 @@ fn find_slice_files(paths: &[String], are_source_files: bool, diagnostics: &mut 
 
     slice_paths
         .into_iter()
-        .map(|path| path.display().to_string())
-        .filter_map(|path| match FilePath::try_create(&path, are_source_files) {
-            Ok(file_path) => Some(file_path),
-            Err(error) => {
+        .filter_map(|path_buf| {
+            // From here on paths are stored as strings. A path that isn't valid Unicode (one we found in a directory)
+            // can't be: a lossy conversion names a file that doesn't exist, or worse, another file that does.
+            let Some(path) = path_buf.to_str().map(str::to_owned) else {
                 Diagnostic::new(Error::IO {
                     action: "read",
-                    path,
-                    error,
+                    path: path_buf.display().to_string(),
+                    error: io::Error::new(io::ErrorKind::InvalidFilename, "the path is not valid Unicode"),
                 })
                 .push_into(diagnostics);
-                None
+                return None;
+            };
+
+            match FilePath::try_create(&path, are_source_files) {
+                Ok(file_path) => Some(file_path),
+                Err(error) => {
+                    Diagnostic::new(Error::IO {
+                        action: "read",
+                        path,
+                        error,
+                    })
+                    .push_into(diagnostics);
+                    None
+                }
             }
         })
         .collect()
